@@ -21,6 +21,13 @@ def _out_root():
     os.makedirs(d, exist_ok=True)
     return d
 
+def _added_note(prop):
+    try:
+        from checks.notes import ADDED
+        return ADDED.get(prop, '')
+    except Exception:
+        return ''
+
 def _san(name): return re.sub(r'[^A-Za-z0-9_.+-]', '_', name)[:150]
 
 def load_known():
@@ -213,7 +220,7 @@ class Ctx:
             known_findings=known_used[:200],
             extraction_drops=self.dropped,
             samples=self.samples[:8] or [dict(note='no obligations generated')],
-            explanation=self.explanation or 'see DESIGN.md',
+            explanation=(self.explanation or 'see DESIGN.md') + _added_note(self.prop),
         )
         if self.exhaustive is not None: cov['exhaustive'] = self.exhaustive
         if self.bounded:
